@@ -96,6 +96,56 @@ def _stage_inverse(chk):
                       facts={"forward": list(f[2]), "inverse": list(i[2])})
 
 
+def _real_last(chk):
+    """MIRROR.real.last - taking the real part is not linear over the complex numbers: it commutes with the real-linear
+    preprocessing inverse (scaling, un-stacking) but not with un-whitening (Tinv is complex Hermitian for Hilbert / complex
+    data) nor with the PCA expansion (V is complex).  In the cross-set family the reconstruction produced by
+    ``_inverse_transform_algorithm`` still has to pass whitenerN / pcaN ``inverse_transform_data``; nothing on the way
+    there - in the algorithm of any concrete class or in ``inverse_transform`` itself - may project on the real part
+    (or take a modulus / imaginary part)."""
+    pm = chk.pm
+    base = pm.cls("xeofs.cross.base_model_cross_set.BaseModelCrossSet")
+    inv = base.methods.get("inverse_transform")
+    chk.require(inv is not None, "BaseModelCrossSet.inverse_transform vanished")
+    COMPLEX_STAGES = ("whitener1", "whitener2", "pca1", "pca2")
+
+    def stage_calls(fn):
+        return [c for c in walk_no_nested(fn.node) if isinstance(c, ast.Call) and isinstance(c.func, ast.Attribute) and c.func.attr == "inverse_transform_data"
+                and is_self_attr(c.func.value) and c.func.value.attr in COMPLEX_STAGES]
+
+    def projections(fn):
+        out = []
+        for n in ast.walk(fn.node):
+            if isinstance(n, ast.Attribute) and n.attr in ("real", "imag") and isinstance(n.ctx, ast.Load):
+                out.append(n)
+            elif isinstance(n, ast.Call) and (dotted(n.func) or "").split(".")[-1] in ("real", "imag", "abs", "absolute", "angle") and \
+                    ((dotted(n.func) or "").startswith(("np.", "numpy.", "xr.")) or (isinstance(n.func, ast.Name) and n.func.id == "abs")):
+                out.append(n)
+        return out
+
+    sc = stage_calls(inv)
+    chk.require(len(sc) >= 1, "BaseModelCrossSet.inverse_transform: un-whitening / PCA expansion calls vanished")
+    ff = FuncFacts.of(inv)
+    early = [p for p in projections(inv) if p.lineno < min(c.lineno for c in sc)]
+    chk.check(not early, "MIRROR.real.last", inv, early[0] if early else inv.node, construct="inverse_transform: no real / modulus projection before the stage inverses",
+              why="inverse_transform projects the reconstruction on its real part (or modulus) before un-whitening / PCA expansion: Re(X) Tinv != Re(X Tinv) for complex Tinv")
+    seen = set()
+    n = 0
+    for cls in pm.concrete_models():
+        if not cls.is_subclass_of(base):
+            continue
+        f = cls.resolve("_inverse_transform_algorithm")
+        if f is None or f.qualname in seen:
+            continue
+        seen.add(f.qualname)
+        n += 1
+        pr = projections(f)
+        chk.check(not pr, "MIRROR.real.last", f, pr[0] if pr else f.node, construct=f"{f.qualname.split('.')[-2]}._inverse_transform_algorithm: reconstruction handed on complex",
+                  why=f"{f.qualname} takes `{norm(pr[0]) if pr else ''}` of the reconstruction, which BaseModelCrossSet.inverse_transform then un-whitens and expands from PC space: "
+                      "the real part is taken before complex-linear maps are undone, so Hilbert / complex models with alpha < 1 no longer restore the fitted data")
+    chk.require(n >= 1, "no cross-set _inverse_transform_algorithm found")
+
+
 def _whitener_labels(chk):
     """MIRROR.whitener.labels - un-whitening multiplies by the stored inverse matrix contracted by dimension NAME: the
     inverse must be labelled (mode, feature) and the forward matrix (feature, mode), else the transpose is applied
@@ -110,6 +160,12 @@ def _whitener_labels(chk):
 def check(chk):
     _modesel(chk)
     _whitener_labels(chk)
+    _real_last(chk)
+    # inverse_transform(scores()) works for every container kind: the unstack variants agree on when the stacked sample
+    # name is renamed back (shared with C02)
+    from . import c02 as _c02u
+    from .c01 import _Relabel as _RLu
+    _c02u._unstack_guarded(_RLu(chk, "MIRROR.state.stack", "MIRROR.unstack"), "MIRROR.state.stack.guarded")
     _affine(chk)
     _stages(chk)
     _scores_identity(chk)
